@@ -106,6 +106,20 @@ def _maybe_fallback(out, repo, c, variant, concrete, tree, timeout_ms):
     except Exception:
         out["rt_fallback"] = {"error": traceback.format_exc()[-600:]}
         return
+    if not r["failures"] and c.qualname in rt_fallback.SUPPORTED and rt_fallback.SUPPORTED[c.qualname] not in ("scn_scalar",):
+        # second pass on a WIDE scenario shape (many services / processes / hosts per subnet): NumPy code that replaced a
+        # loop computes in machine arithmetic (float32 mantissa, small integer dtypes), which only shows on wide vectors
+        try:
+            wide = dict(concrete, subnets=list(concrete["subnets"]), n_os=3, n_srv=22, n_proc=7)
+            wide.pop("bounds", None)
+            r2 = rt_fallback.run_fallback(repo, c, variant, wide, tree, max(40, n // 3),
+                                          seed=int(os.environ.get("VERIF_SEED", "0") or 0))
+            r["samples"] += r2["samples"]
+            r["valid"] += r2["valid"]
+            r["failures"] += r2["failures"]
+            out["rt_fallback_wide"] = {"config": wide, "samples": r2["samples"], "valid": r2["valid"]}
+        except Exception:
+            out["rt_fallback_wide"] = {"error": traceback.format_exc()[-400:]}
     out["rt_fallback"] = {"samples": r["samples"], "valid": r["valid"], "failed_clauses": [f["label"] for f in r["failures"]]}
     for f in r["failures"]:
         lab = f["label"]
